@@ -96,14 +96,17 @@ func (g *zzGen) constCond(kind int) *zzExpr {
 // comparisons / constant arithmetic (what the optimizer rewrites) mixed with
 // symbolic ones; two runs on each evaluator.
 func ZZ_C03_Programs(sv *zzsv.T) {
-	g := newGen(sv, sv.Param("depth", 1, 2))
+	// (constructs nested two deep, times six kinds of constant condition,
+	// times the positions and suffixes, are some 15 million paths: nesting is
+	// left to C02's thorough tier and to ZZ_C03_TailJumps)
+	g := newGen(sv, sv.Param("depth", 1, 1))
 	// one condition of the program (the k-th one generated) is a constant
 	// expression of the chosen kind; the others stay symbolic
-	g.small = sv.Param("c03.small", 1, 1) == 1
+	g.small = sv.Param("c03.small", 1, 0) == 1
 	g.constKind = 1 + sv.Choice("constkind", 6)
 	g.constAt = sv.Choice("constat", sv.Param("constat", 1, 2))
 	p := &zzProg{}
-	if sv.Param("c03.full", 0, 0) == 1 {
+	if sv.Param("c03.full", 0, 1) == 1 {
 		p = g.program()
 	} else {
 		p.main = append(p.main, g.compound(1), &zzStmt{kind: sTrace, e: g.id()})
